@@ -146,6 +146,33 @@ def _range_is(d, lo, hi) -> bool:
         return False
 
 
+def _int_index_expr(e: ast.expr, fi) -> bool:
+    """True when the expression is known to yield integer indices (not a boolean mask)."""
+    if isinstance(e, ast.Subscript) and isinstance(e.value, ast.Call) and norm(e.value.func) in ("np.where", "np.nonzero") and norm(e.slice) == "0":
+        return True
+    if isinstance(e, ast.Subscript) and isinstance(e.slice, ast.Slice):
+        return _int_index_expr(e.value, fi)  # a slice of integer indices
+    if isinstance(e, ast.Call):
+        fn = norm(e.func)
+        if fn in ("np.flatnonzero", "np.arange", "np.argwhere", "range", "np.empty", "np.zeros") :
+            return fn not in ("np.empty", "np.zeros") or any(k.arg == "dtype" and norm(k.value) in ("int", "np.int64", "np.intp", "np.int_") for k in e.keywords)
+        if fn in ("np.array", "np.asarray", "list") and e.args:
+            if any(k.arg == "dtype" and norm(k.value) in ("int", "np.int64", "np.intp", "np.int_") for k in e.keywords):
+                return True
+            return _int_index_expr(e.args[0], fi)
+    if isinstance(e, (ast.List, ast.Tuple)):
+        return all(isinstance(x, ast.Constant) and isinstance(x.value, int) and not isinstance(x.value, bool) for x in e.elts)
+    if isinstance(e, ast.Name):
+        # a local or parameter: follow single local bindings, accept parameters annotated as integer arrays / index lists
+        binds = [st for st in walk_no_nested(fi.node) if isinstance(st, ast.Assign) and len(st.targets) == 1 and isinstance(st.targets[0], ast.Name) and st.targets[0].id == e.id]
+        if binds:
+            return all(_int_index_expr(b.value, fi) for b in binds)
+        for a in fi.node.args.args + fi.node.args.kwonlyargs:
+            if a.arg == e.id and a.annotation is not None:
+                return "Integer" in norm(a.annotation) or "int" in norm(a.annotation)
+    return False
+
+
 def run(prog: Program, L: Ledger) -> None:
     L.explanation = (
         "C10 decided per operation on the value-numbered calculate() body: generator draws become symbols with their (low, high) range; "
@@ -284,7 +311,32 @@ def run(prog: Program, L: Ledger) -> None:
             cok = norm(cell) in ("context.atoms.cell.array", "context.atoms.get_cell().array", "context.atoms.cell", "context.atoms.get_cell()", "np.asarray(context.atoms.cell)")
             rok = norm(right) in ("context.atoms.positions[context._moving_indices].mean(axis=0)", "np.mean(context.atoms.positions[context._moving_indices], axis=0)",
                                   "context.atoms.get_positions()[context._moving_indices].mean(axis=0)")
+            why_not = ""
+            if not rok and isinstance(right, ast.BinOp) and isinstance(right.op, ast.Div):
+                # centroid written as Σ rows / number of rows
+                grp = ("context.atoms.positions[context._moving_indices]", "context.atoms.get_positions()[context._moving_indices]")
+                num_ok = norm(right.left) in tuple(g + ".sum(axis=0)" for g in grp) + tuple(f"np.sum({g}, axis=0)" for g in grp)
+                den = norm(right.right)
+                if num_ok and den in tuple(f"len({g})" for g in grp) + tuple(g + ".shape[0]" for g in grp):
+                    rok = True
+                elif num_ok and den in ("len(context._moving_indices)", "context._moving_indices.size", "context._moving_indices.shape[0]"):
+                    # the number of index entries is the number of selected rows only for integer indices: every producer
+                    # of context._moving_indices in the package must hand over integer indices, never a boolean mask
+                    masks = []
+                    for fi2 in prog.iter_functions():
+                        for st2 in walk_no_nested(fi2.node):
+                            if isinstance(st2, (ast.Assign, ast.AnnAssign)) and st2.value is not None:
+                                tg2 = st2.targets if isinstance(st2, ast.Assign) else [st2.target]
+                                unpack = [t2 for t2 in tg2 if isinstance(t2, (ast.Tuple, ast.List)) and len(t2.elts) == 1 and isinstance(t2.elts[0], ast.Attribute) and t2.elts[0].attr == "_moving_indices"]
+                                if unpack and not (isinstance(st2.value, ast.Call) and norm(st2.value.func) in ("np.where", "np.nonzero") and len(st2.value.args) == 1):
+                                    masks.append(f"{fi2.qualname} ({fi2.module.relpath}:{st2.lineno}) unpacks `{norm(st2.value)[:60]}`")
+                                if any(isinstance(t2, ast.Attribute) and t2.attr == "_moving_indices" for t2 in tg2) and not _int_index_expr(st2.value, fi2):
+                                    masks.append(f"{fi2.qualname} ({fi2.module.relpath}:{st2.lineno}) stores `{norm(st2.value)[:60]}`")
+                    rok = not masks
+                    why_not = "; the centroid divides by the number of index ENTRIES while " + "; ".join(masks) + " — with a boolean mask that is the total atom count, not the group size"
             okt = uok and cok and rok
+            if why_not and not rok:
+                detail = detail + why_not
     L.check(okt, "G3", "Translation.calculate", f.where, f"translation is `{detail}`, not uniform(0,1,(1,3)) @ cell − centroid of the moving group",
             "the group's centroid does not land uniformly in the cell / the group is not moved rigidly", detail)
 
